@@ -1020,6 +1020,60 @@ def g_gate(mode):
         raw.close()
         if advertised_methods != {"m", "ow", "sm", "cm", "base_exposed", "__len__"} or advertised_attrs != {"p", "ro"}:
             fail(group="C02", violated="advertised members %r / %r" % (sorted(advertised_methods), sorted(advertised_attrs)))
+        # exposure follows the class as it is now: a property that is withdrawn (replaced by an unexposed one, or deleted) and
+        # whose metadata cache was reset must be refused afterwards, for reads and writes
+        class Vault(object):
+            def __init__(self):
+                self._pin = "4321"
+
+            @api.expose
+            @property
+            def pin(self):
+                LOG.append("pin-get")
+                return self._pin
+
+            @pin.setter
+            def pin(self, v):
+                LOG.append("pin-set")
+                self._pin = v
+
+            @api.expose
+            def other(self):
+                return 1
+        vault = Vault()
+        r.daemon.register(vault, "vault")
+        raw = Raw(r.addr)
+        raw.connect("vault")
+        raw.invoke("vault", "__getattr__", ("pin",), seq=1)
+        m = raw.reply()
+        RUNS[0] += 1
+        if m is None or m.flags & P.FLAGS_EXCEPTION:
+            fail(group="C02", violated="exposed property not served")
+
+        def hidden_get(self):
+            LOG.append("pin-get-hidden")
+            return self._pin
+
+        def hidden_set(self, v):
+            LOG.append("pin-set-hidden")
+            self._pin = v
+        old_prop = Vault.pin
+        for how in ("replaced-by-unexposed-property", "deleted"):
+            if how == "deleted":
+                del Vault.pin
+            else:
+                Vault.pin = property(hidden_get, hidden_set)
+            r.daemon.resetMetadataCache(vault)
+            for kind, args in (("__getattr__", ("pin",)), ("__setattr__", ("pin", "0000"))):
+                RUNS[0] += 1
+                del LOG[:]
+                raw.invoke("vault", kind, args, seq=7)
+                m = raw.reply()
+                if LOG or m is None or not (m.flags & P.FLAGS_EXCEPTION):
+                    fail(group="C02", scenario="property %s, metadata cache reset" % how, kind=kind,
+                         violated="withdrawn property still served: ran %r, reply %s" % (LOG, "error" if m is not None and m.flags & P.FLAGS_EXCEPTION else "value"))
+            Vault.pin = old_prop
+        raw.close()
         # known finding: attribute holding a callable instance of an exposed class
         @api.expose
         class Callable(object):
